@@ -44,7 +44,13 @@ def _run_variant(prop: str, repo_root: str, variant: dict, base_keys: set[str]) 
     d = tempfile.mkdtemp(prefix=f"pydra_sa_var_{prop}_")
     try:
         shutil.copytree(Path(repo_root) / "pydra", Path(d) / "pydra", ignore=shutil.ignore_patterns("tests", "__pycache__", "*.pyc"))
-        if not _apply(Path(d), variant["edits"]):
+        if variant.get("patch"):
+            ap = subprocess.run(["git", "apply", "--unsafe-paths", "--directory", d, variant["patch"]], cwd=d, capture_output=True, text=True)
+            if ap.returncode != 0:
+                ap = subprocess.run(["patch", "-p1", "-s", "-i", variant["patch"]], cwd=d, capture_output=True, text=True)
+            if ap.returncode != 0:
+                return {"name": variant["name"], "status": "skipped (patch no longer applies)"}
+        elif not _apply(Path(d), variant["edits"]):
             return {"name": variant["name"], "status": "skipped (precondition no longer matches)"}
         env = dict(os.environ, PYDRA_SA_NO_SELFVAL="1", PYDRA_SA_OUT=str(Path(d) / "_out"))
         r = subprocess.run([sys.executable, "-m", "pydra_sa.check", prop, "--repo", d, "--no-write", "--tier", "quick"], cwd=str(VERIF), capture_output=True, text=True, env=env)
@@ -62,10 +68,18 @@ def _run_variant(prop: str, repo_root: str, variant: dict, base_keys: set[str]) 
         shutil.rmtree(d, ignore_errors=True)
 
 
+def _patch_variants() -> list[dict]:
+    """behaviour-preserving refactorings kept as patches under /verif/benign (see its README)"""
+    out = []
+    for d in sorted((VERIF / "benign").glob("*/patch.diff")):
+        out.append({"name": f"benign patch {d.parent.name}", "kind": "benign", "edits": [], "patch": str(d)})
+    return out
+
+
 def run_corpus(prop: str, repo_root: str, seed: int = 0) -> dict:
     from .corpus import variants_for
 
-    variants = variants_for(prop)
+    variants = variants_for(prop) + _patch_variants()
     import random
 
     rnd = random.Random(seed)
